@@ -114,7 +114,7 @@ def run_case(case):
 
     res = {"evals": 1, "violations": [], "events": {}, "nontrivial": []}
     atoms, info, d = build_pair(case)
-    if abs(d - 2.5) < 1.5e-3:
+    if abs(d - 2.5) < 1e-9:
         res["evals"] = 0
         return res
     ff = case["ff"]
